@@ -572,6 +572,9 @@ class SymbolValue(Value):
         if symbol.is_numeric():
             return NumericValue(-symbol.int if symbol.is_negative() else symbol.int)
 
+        if symbol.is_address_expression():
+            return symbol
+
     def is_8_bit(self):
         return False
 
